@@ -45,6 +45,16 @@ CLAIMS = {
    text="Decides the structural skeleton of match iteration: each continued search resumes from X.textpos with X.RuneLength of the same match X (R-NEXT); after an empty match every path bumps the attempt position before searching, the stop tests compare with the direction-selected stoppos, and bump/stoppos come from one RightToLeft() test (R-EMPTYBUMP); every back edge of the attempt loop advances one step towards stoppos (R-ADVANCE, the loop variant); both arms of tidyMatch record the resume position (R-TEXTPOS); every fold that carries a position across matches is direction-aware (R-DIRFOLD); the find-all limit is charged only for reported matches (R-COUNTN). Strict monotonicity of returned matches (needs: the finders and the interpreter never move the attempt position backwards) and the length+1 bound are NOT decided.",
    note="Trusted: go/ssa; 'direction-aware' means the function consults RightToLeft() or is only called under a branch on it — that the mirrored arithmetic is right is not checked.",
    ref="DESIGN.md §4 C07"),
+ "C04": dict(
+   technique="static analysis: SSA path search over the accumulate-until-stop protocol, AST idiom rules for capped expansion / monotone narrowing / merge counting, guard dominance (M > 0), observer-contract checks (IsNegated), default-arm evaluation",
+   text="Decides shape conditions that every fact-deriving analysis must meet for its output to over-approximate the pattern: after a child analysis says 'stop' nothing more is appended (R-ACC); a capped loop expansion can only report 'fully processed' through the cap variable (R-ACCCAP); the shared prefix of an alternation only shrinks (R-NARROW); an offset counts as common to all branches only where the branch was merged (R-ALTMERGE); a loop's child is required content only under M > 0 (R-OPTLOOP); callers of GetSetChars honour its negation contract (R-NEGCHARS); unknown node kinds yield the know-nothing value (R-DEFAULT). Each rule has pointed at a real unsound fact in this code base. It does NOT decide that the published strings, sets, anchors and lengths are correct for the pattern's language.",
+   note="Trusted: the three accumulating analyses are named in the rule (tryFindPrefix, findPrefixesCore, tryFindRawFixedSets); idiom rules match the repository's own clamp / narrowing idioms and report nothing when a new idiom is used (floors guard the instance counts).",
+   ref="DESIGN.md §4 C04"),
+ "C05": dict(
+   technique="static analysis: dominance of direction guards + guarded-call-site fixpoint over the static call graph, who-may-call table, guard-field check, same-field comparison lint with exact zero baseline",
+   text="Decides side conditions every tree rewrite must respect: left-to-right-only reasoning about a string's first rune runs only in left-to-right context (R-DIRCTX, local dominance or every call path guarded); ending-backtracking elimination is invoked only from the five contexts nothing can backtrack into (R-ATOMCTX); descending into a loop's child as 'what follows' requires M > 0 on that node (R-OPTLOOP); node-equality chains compare like fields (R-XFIELD). It does NOT decide the substance of the rewrites (class disjointness, nullability of what follows, MayOverlap) nor equality with the un-rewritten pattern.",
+   note="Trusted: static callees only (the tree code has no dynamic dispatch); the direction test is recognised as any condition mentioning `& RightToLeft` or a bool derived from it.",
+   ref="DESIGN.md §4 C05"),
 }
 
 NOT_APPLICABLE = {
